@@ -860,6 +860,54 @@ def exact_fit_boundaries(col, tracer, width):
             run_one('unicode:%d' % (n - w), '\u00e9' * n, 'nope', w)
 
 
+class _RowsShortRepr(list):
+    def __repr__(self):
+        return '<Rows: %d rows>' % len(self)
+
+
+class _TextShortRepr(str):
+    def __repr__(self):
+        return '<Text of %d characters>' % len(self)
+
+
+class _PairsShortRepr(tuple):
+    def __repr__(self):
+        return '<Pairs x%d>' % len(self)
+
+
+def long_values_are_rendered_from_their_whole_repr(col, tracer, width):
+    """what a Target line shows is repr(value), cut where the line ends: a long instance of a list / str / tuple subclass with a
+    short repr of its own is shown by that repr; long text whose only apostrophe (or double quote, backslash, non-ASCII character) lies
+    beyond the cut keeps the quoting of its whole repr"""
+    vals = [('list subclass with a short repr', _RowsShortRepr(range(500))), ('str subclass with a short repr', _TextShortRepr('y' * 400)),
+            ('tuple subclass with a short repr', _PairsShortRepr(range(300))), ('text with a late apostrophe', 'a' * 200 + "'" + 'b' * 5),
+            ('text with a late double quote', 'a' * 200 + '"'), ('text with both quotes late', 'a' * 200 + '\'"'), ('bytes with a late apostrophe', b'a' * 200 + b"'"),
+            ('text with a late newline', 'a' * 200 + '\n'), ('list with a late long item', ['i'] * 150 + ['z' * 50]), ('list of lists', [[1, 2]] * 200),
+            ('text exactly filling with a quote at the end', 'q' * (width - 14) + "'"), ('dict with many keys', {('k%d' % i): i for i in range(100)})]
+    for desc, v in vals:
+        for where, target, spec in (('root target', v, T.nope_attr), ('below a chain step', {'k': v}, ('k', T.nope_attr)),
+                                    ('inside a Coalesce branch', {'k': v}, Coalesce(('k', T.nope_attr), ('k', T.other_attr))),
+                                    ('as the only item of a list', [v], ([T.nope_attr],))):
+            tracer.reset()
+            got = call(G, target, spec)
+            col.count('evaluations')
+            if got.ok or not isinstance(got.exc, GlomError):
+                col.count('no_error_or_not_glomerror')
+                continue
+            col.case(('long-values', desc, where, width), True)
+            col.count('error_messages_checked')
+            col.count('boundary_messages_checked')
+            msg = str(got.exc)
+            d = '%s, %s' % (desc, where)
+            check_message(col, msg, tracer.roots()[-1], target, d, ('long-values', desc, where), width)
+            # (the generic rule compares the visible prefix with repr(value); say it once more in the terms of this battery)
+            full = fmt_full(v)
+            lines = [ln for ln in msg.split('\n') if 'Target: ' in ln]
+            if full is not None and not any(matches(ln.split('Target: ', 1)[1], v) for ln in lines):
+                col.violation('C05/target-line-not-a-prefix-of-the-value-s-repr', '%s: no Target line renders the value whose repr starts %r:\n%s'
+                              % (d, full[:60], msg), {'message': msg})
+
+
 EQ_FAMILIES = [[1, True, 1.0], [0, False, 0.0, -0.0], [2, 2.0], ['x', b'x'], [(1,), (True,), (1.0,)], [10 ** 3, 1e3]]
 
 
@@ -1054,6 +1102,7 @@ def child_main(width, seed, shard, nshards, tier):
         if shard == 0:
             exact_fit_boundaries(col, tracer, width)
         equal_values_of_different_types(col, tracer, width)
+        long_values_are_rendered_from_their_whole_repr(col, tracer, width)
         multi_line_messages(col, tracer, width)
         lazy_steps_before_the_failure(col, tracer, width)
         cyclic_targets(col, tracer, width)
